@@ -901,6 +901,9 @@ class TT():
             torch.tensor: the values of the tensor
 
         """
+        if len(indices.shape) != 2 or indices.shape[1] != len(self.__N):
+            raise InvalidArguments(
+                'The index list must have one column for every mode of the tensor.')
         result = apply_mask(self.cores, self.__R, indices)
         return result
 
